@@ -41,7 +41,7 @@ def post_corr(ctx, n):
     if rc != 0:
         ctx.diag.append("post-processing driver crashed: " + out[-300:])
         return
-    rc, out = C.sh([os.path.join(C.BIN, "c07"), "post", "-out", d, "-n", str(n), "-hidden", hidden], timeout=3000)
+    rc, out = C.sh([os.path.join(C.BIN, "c07"), "post", "-out", d, "-n", str(n), "-hidden", hidden, "-repo", C.REPO], timeout=3000)
     ctx.log("post", out[-1000:])
     if rc != 0:
         ctx.diag.append("post-processing correspondence could not run: " + out[-300:])
